@@ -1,6 +1,6 @@
 (* Proofs about M9 (Model/Config.v) and about _get_config_param as regenerated from the source. *)
 From Coq Require Import ZArith List Bool Lia ZifyBool Arith.
-Require Import JV.Base.PyPrelude JV.Model.Config JV.Gen.T_config_param.
+Require Import JV.Base.PyPrelude JV.Model.Config JV.Gen.T_config_param JV.Gen.T_active_backend.
 Import ListNotations.
 Open Scope Z_scope.
 
@@ -223,13 +223,14 @@ Lemma active_backend_inv : forall a c ab ctx,
    (forced a c = false /\ c_njobs ctx = c_njobs c /\
     (ab = b \/ (c_backend c = None /\ ab = {| ck := BLoky; clevel := clevel b |})))).
 Proof.
-  intros a c ab ctx. unfold active_backend, forced, res_prefer, res_require.
+  intros a c ab ctx. unfold active_backend, active_backend_dk, forced, res_prefer, res_require.
   set (prefer := gcp (a_prefer a) (c_prefer c) d_prefer). set (require := gcp (a_require a) (c_require c) d_require).
   destruct (valid_prefer prefer) eqn:Vp; cbn [negb]; [|discriminate].
   destruct (valid_require require) eqn:Vr; cbn [negb]; [|discriminate].
   destruct ((prefer =? 2) && (require =? 1)) eqn:Inc; [discriminate|].
   assert (gcp None (option_map Some (c_backend c)) None = c_backend c) as -> by (destruct (c_backend c); reflexivity).
   destruct (c_backend c) as [b|] eqn:Eb.
+  2: change {| ck := BLoky; clevel := 0 |} with default_cbk.
   - destruct (force_threads true b prefer require) eqn:Ft.
     + intros H; inversion H; subst. cbn. repeat split; auto.
     + destruct (force_processes true b prefer) eqn:Fp; [cbn in Fp; discriminate|].
@@ -265,7 +266,7 @@ Lemma parallel_init_inv : forall a c r, parallel_init a c = Ok r ->
   (a_backend a = None -> forced a c = false -> c_backend c = None -> r_kind r = BLoky /\ r_level r = 0) /\
   (a_require a = Some 1 -> supports_sharedmem (r_kind r) = true).
 Proof.
-  intros a c r. unfold parallel_init.
+  intros a c r. unfold parallel_init, parallel_init_with.
   destruct (active_backend (a_prefer a) (a_require a) c) as [[ab ctx]|] eqn:Ea; cbn [bind]; [|discriminate].
   destruct (active_backend_inv _ _ _ _ Ea) as (Vp & Vr & Hv & Ht & Hm & Hmm & Hp & Hr & Hcase).
   rewrite Hv, Ht, Hm, Hmm, Hp, Hr.
@@ -349,6 +350,27 @@ Proof.
   - destruct (Hdef Hb eq_refl Hc) as [-> _]. unfold forced, force_threads in Hf. rewrite Hc in Hf. cbn in Hf.
     rewrite !andb_true_r in Hf. rewrite Hf. reflexivity.
 Qed.
+
+(* ------------------------------------------- the regenerated _get_active_backend = the hand model *)
+Lemma src_active_backend_eq : forall dk p r v c,
+  src_get_active_backend dk p r v c = active_backend_dk dk p r c.
+Proof.
+  intros. unfold src_get_active_backend, active_backend_dk, force_threads, force_processes.
+  assert (gcp None (option_map Some (c_backend c)) None = c_backend c) as -> by (destruct (c_backend c); reflexivity).
+  destruct (c_backend c) as [b|]; cbn [bind];
+  repeat match goal with |- context [if ?x then _ else _] => destruct x eqn:? end; cbn [bind negb andb orb] in *;
+  try reflexivity; try congruence; try discriminate.
+Qed.
+
+(* Parallel.__init__ on top of the REGENERATED _get_active_backend (dk = the registered default backend class) *)
+Definition parallel_init_src (dk : ckind) (a : pargs) (c : config) : result pres :=
+  parallel_init_with (fun p r cfg => src_get_active_backend dk p r (a_verbose a) cfg) a c.
+
+Lemma parallel_init_src_eq_dk : forall dk a c, parallel_init_src dk a c = parallel_init_dk dk a c.
+Proof. intros. unfold parallel_init_src, parallel_init_dk, parallel_init_with. rewrite src_active_backend_eq. reflexivity. Qed.
+
+Lemma parallel_init_src_eq : forall a c, parallel_init_src BLoky a c = parallel_init a c.
+Proof. intros. rewrite parallel_init_src_eq_dk. reflexivity. Qed.
 
 (* ---------------------------------------------------------------- statements of Props/C17.v (the file Props/C17.v only restates them and closes each with `exact`) *)
 Definition spec_empty : cspec :=
@@ -476,4 +498,114 @@ Proof.
   intros a c r H.
   destruct (parallel_init_inv a c r H) as (_ & _ & _ & _ & _ & _ & _ & Vp & Vr & _ & _ & _ & _ & Hb & _).
   auto.
+Qed.
+
+(* the same statements about Parallel.__init__ running the REGENERATED _get_active_backend *)
+Lemma C17_priority_src : forall k cur a r,
+  stack_inv default_config k cur -> parallel_init_src BLoky a cur = Ok r ->
+  let sp := specs_of k in
+  r_verbose r = prio (a_verbose a) s_verbose sp d_verbose /\
+  r_kw_verbose r = Z.max 0 (prio (a_verbose a) s_verbose sp d_verbose - 50) /\
+  r_kw_temp r = prio (a_temp a) s_temp sp d_temp /\
+  r_kw_mmap r = prio (a_mmap a) s_mmap sp d_mmap /\
+  r_kw_prefer r = prio (a_prefer a) s_prefer sp d_prefer /\
+  r_kw_require r = prio (a_require a) s_require sp d_require /\
+  conv_maxnb (prio (a_maxnb a) s_maxnb sp d_maxnb) = Ok (r_kw_maxnb r) /\
+  (forall n, njobs_arg a = Some n -> r_njobs r = n) /\
+  (njobs_arg a = None -> forced a cur = false ->
+     r_njobs r = match innermost s_njobs sp with Some (Some n) => n | _ => 1 end) /\
+  (forall kd l, a_backend a = Some (BInst kd l) -> r_kind r = kd) /\
+  (a_backend a = None -> forced a cur = false ->
+     r_kind r = match innermost spec_kind sp with Some kd => kd | None => BLoky end).
+Proof. intros *. rewrite parallel_init_src_eq. apply C17_priority_holds. Qed.
+
+Lemma C17_priority_forced_fallback_src : forall cur a r,
+  parallel_init_src BLoky a cur = Ok r -> forced a cur = true ->
+  (njobs_arg a = None -> r_njobs r = 1) /\ (a_backend a = None -> r_kind r = BThr).
+Proof. intros *. rewrite parallel_init_src_eq. apply C17_priority_forced_fallback_holds. Qed.
+
+Lemma C17_priority_njobs_refuted_src : exists k cur a r,
+  stack_inv default_config k cur /\ parallel_init_src BLoky a cur = Ok r /\
+  njobs_arg a = None /\ a_backend a = None /\ innermost spec_kind (specs_of k) = None /\
+  innermost s_njobs (specs_of k) = Some (Some 2) /\ r_njobs r = 1.
+Proof.
+  destruct C17_priority_njobs_refuted_holds as (k & cur & a & r & H). exists k, cur, a, r. rewrite parallel_init_src_eq. exact H.
+Qed.
+
+Lemma C17_sharedmem_src : forall a c r, parallel_init_src BLoky a c = Ok r ->
+  (a_require a = Some 1 -> supports_sharedmem (r_kind r) = true) /\
+  (res_require a c = 1 -> a_backend a = None -> supports_sharedmem (r_kind r) = true).
+Proof. intros *. rewrite parallel_init_src_eq. apply C17_sharedmem_holds. Qed.
+
+Lemma C17_sharedmem_context_refuted_src : exists k cur a r,
+  stack_inv default_config k cur /\ parallel_init_src BLoky a cur = Ok r /\
+  r_kw_require r = 1 /\ supports_sharedmem (r_kind r) = false.
+Proof.
+  destruct C17_sharedmem_context_refuted_holds as (k & cur & a & r & H). exists k, cur, a, r. rewrite parallel_init_src_eq. exact H.
+Qed.
+
+Lemma C17_prefer_hint_src : forall a c r, parallel_init_src BLoky a c = Ok r ->
+  (forall kd l, a_backend a = Some (BInst kd l) -> r_kind r = kd) /\
+  (forall b, a_backend a = None -> c_backend c = Some b -> res_require a c <> 1 ->
+     r_kind r = ck b /\ r_level r = clevel b) /\
+  (a_backend a = None -> c_backend c = None ->
+     r_kind r = if (res_require a c =? 1) || (res_prefer a c =? 1) then BThr else BLoky).
+Proof. intros *. rewrite parallel_init_src_eq. apply C17_prefer_hint_holds. Qed.
+
+Lemma C17_invalid_rejected_src : forall a c r, parallel_init_src BLoky a c = Ok r ->
+  valid_prefer (res_prefer a c) = true /\ valid_require (res_require a c) = true /\
+  a_backend a <> Some BInvalid.
+Proof. intros *. rewrite parallel_init_src_eq. apply C17_invalid_rejected_holds. Qed.
+
+(* what the REGENERATED _get_active_backend returns, for every registered default backend class dk *)
+Lemma src_active_backend_spec : forall dk p r v c b ctx,
+  src_get_active_backend dk p r v c = Ok (b, ctx) ->
+  let prefer := gcp p (c_prefer c) d_prefer in
+  let require := gcp r (c_require c) d_require in
+  let explicit := match c_backend c with Some _ => true | None => false end in
+  let b0 := match c_backend c with Some b0 => b0 | None => {| ck := dk; clevel := 0 |} end in
+  valid_prefer prefer = true /\ valid_require require = true /\ (prefer =? 2) && (require =? 1) = false /\
+  ctx = (if force_threads explicit b0 prefer require then set_njobs c (Some (Some 1)) else c) /\
+  b = (if force_threads explicit b0 prefer require then {| ck := BThr; clevel := clevel b0 |}
+       else if force_processes explicit b0 prefer then {| ck := BLoky; clevel := clevel b0 |} else b0) /\
+  clevel b = clevel b0.
+Proof.
+  intros dk p r v c b ctx. rewrite src_active_backend_eq. unfold active_backend_dk.
+  assert (gcp None (option_map Some (c_backend c)) None = c_backend c) as -> by (destruct (c_backend c); reflexivity).
+  set (prefer := gcp p (c_prefer c) d_prefer). set (require := gcp r (c_require c) d_require). cbn zeta.
+  destruct (valid_prefer prefer) eqn:Vp; cbn [negb]; [|discriminate].
+  destruct (valid_require require) eqn:Vr; cbn [negb]; [|discriminate].
+  destruct ((prefer =? 2) && (require =? 1)) eqn:Inc; [discriminate|].
+  destruct (c_backend c) as [b0|];
+    match goal with |- context [force_threads ?e ?bb prefer require] => destruct (force_threads e bb prefer require) end;
+    try match goal with |- context [force_processes ?e ?bb prefer] => destruct (force_processes e bb prefer) end;
+    intros H; inversion H; subst; repeat split; reflexivity.
+Qed.
+
+(* hints, when no context names a backend: prefer='threads' / require='sharedmem' replace a default backend that is not
+   thread-based by ThreadingBackend; prefer='processes' replaces a thread-based default by LokyBackend *)
+Lemma src_active_backend_hints : forall dk p r v c b ctx,
+  src_get_active_backend dk p r v c = Ok (b, ctx) -> c_backend c = None ->
+  let prefer := gcp p (c_prefer c) d_prefer in
+  let require := gcp r (c_require c) d_require in
+  (require = 1 -> supports_sharedmem (ck b) = true) /\
+  (prefer = 1 -> uses_threads (ck b) = true) /\
+  (prefer = 2 -> uses_threads (ck b) = false \/ ck b = BLoky) /\
+  (prefer = 0 -> require = 0 -> b = {| ck := dk; clevel := 0 |} /\ ctx = c).
+Proof.
+  intros dk p r v c b ctx H Hc. destruct (src_active_backend_spec _ _ _ _ _ _ _ H) as (_ & _ & Inc & Hctx & Hb & _).
+  clear H. rewrite Hc in *. cbn zeta. unfold force_threads, force_processes in *. cbn [negb andb] in *.
+  set (prefer := gcp p (c_prefer c) d_prefer) in *. set (require := gcp r (c_require c) d_require) in *.
+  assert (forall x y : Z, x = y -> (x =? y) = true) as Heq by (intros; lia).
+  repeat split.
+  - intros Hr. assert (require =? 1 = true) as E3 by lia. rewrite E3 in *. rewrite andb_true_r in Inc. rewrite Inc in *.
+    subst b. destruct dk, (prefer =? 1); cbn; reflexivity.
+  - intros Hp. assert (prefer =? 1 = true) as E1 by lia. assert (prefer =? 2 = false) as E2 by lia. rewrite E1, E2 in *.
+    subst b. destruct dk, (require =? 1); cbn; reflexivity.
+  - intros Hp. assert (prefer =? 1 = false) as E1 by lia. assert (prefer =? 2 = true) as E2 by lia. rewrite E1, E2 in *.
+    cbn [andb] in Inc. rewrite Inc in *. subst b. destruct dk; cbn; auto.
+  - intros Hp Hr. assert (prefer =? 1 = false) as E1 by lia. assert (prefer =? 2 = false) as E2 by lia.
+    assert (require =? 1 = false) as E3 by lia. rewrite E1, E2, E3 in Hb. cbn in Hb. exact Hb.
+  - intros Hp Hr. assert (prefer =? 1 = false) as E1 by lia. assert (require =? 1 = false) as E3 by lia.
+    rewrite E1, E3 in Hctx. cbn in Hctx. exact Hctx.
 Qed.
